@@ -53,6 +53,7 @@ class _TextParser(HTMLParser):
 
   def __init__(self, paragraph: model.P, line_number: int) -> None:
     self.line_num: int = line_number
+    self.paragraph: model.P = paragraph
     self.parent: model.ContentElement = paragraph
     super().__init__()
 
@@ -88,6 +89,10 @@ class _TextParser(HTMLParser):
       return
 
   def handle_endtag(self, tag):
+    if self.parent is self.paragraph:
+      LOGGER.warning("End tag %s without start tag at line %s", tag, self.line_num)
+      return
+
     self.parent = self.parent.parent()
 
   def handle_data(self, data):
